@@ -231,9 +231,34 @@ def run(rep, db, tier, seed):
     rep.bounds = dict(repeated_fields='<= 2 elements (1 at nesting depth fallback)', nesting_depth='<= 3 (Option = None / empty Vec beyond)', scalars='fully symbolic', byte_strings='symbolic length < 2^32, opaque content')
     n = sweep(rep, db, tier)
     absurd_messages(rep, db, tier)
+    from props import c10_frames
+    c10_frames.run(rep, db, tier)
+    from props import kani_part
+    kani_part.run(rep, PROP, tier)
+    # verification entry points reachable with decoded, not yet authenticated data must be total as well (decided in C04's harnesses)
     try:
-        from props import c10_kani
-        c10_kani.run(rep, tier)
-    except ImportError:
-        pass
+        from props import c04
+        for N in ([2] if tier == 'quick' else [2, 3]):
+            for entry in ('final_block', 'replica_timeout_high_qc', 'leader_proposal'):
+                viol, npaths = c04.check_commit_verify(rep, db, N, entry)
+                pan = [v for v in viol if v[0].startswith('panic@')]
+                for key, text, m, info, expected in pan:
+                    k = f'verify-panic:{entry}:{key}'
+                    if any(v.key == k for v in rep.violations): continue
+                    from props import c04_replay
+                    path = None; repro = None
+                    try:
+                        rr = replay.run_replay(f'c10_v{len(rep.violations)}', c04_replay.gen(info['kind'], m, info, expected)); rep.replayed += 1
+                        path = rr['path']; repro = rr['reproduced']
+                    except Exception:
+                        pass
+                    rep.violation(Violation(PROP, k, f'verification of a decoded (unauthenticated) certificate panics: {text}', path, repro is True))
+                rep.add(Obligation(f'verify totality via {entry} N={N}', 'violated' if pan else 'discharged', paths=npaths))
+            viol, npaths = c04.check_timeout_verify(rep, db, N, 1, 'timeout_qc')
+            pan = [v for v in viol if v[0].startswith('panic@')]
+            for key, text, m, info, expected in pan:
+                rep.violation(Violation(PROP, f'verify-panic:timeout_qc:{key}', f'verification of a decoded (unauthenticated) timeout certificate panics: {text}', None, None))
+            rep.add(Obligation(f'verify totality via timeout_qc N={N}', 'violated' if pan else 'discharged', paths=npaths))
+    except Unmodelled as u:
+        rep.add(Obligation('verify totality', 'inconclusive', str(u)[:400]))
     rep.extra['explanation'] = 'totality of every ProtoFmt::read body and of the pre-verification view extraction over all symbolic proto messages within the nesting/length bound; std_conv converters and the mux header codec decided bit-precisely by Kani'
